@@ -124,8 +124,8 @@ def zeroTimeNs : Int := -62135596800000000000
 
 /-- `&NowValuer{Now: now, Location: zone}`. -/
 def Valuer.now {F : Type} (now : Int) (zone : Option Int) : Valuer F :=
-  { value := fun key => if now ≠ zeroTimeNs ∧ key = "now()".toList then some (.time now) else none
-    call := some (fun name args => if name = "now".toList ∧ args.length = 0 then some (.time now) else none)
+  { value := fun key => if now ≠ zeroTimeNs ∧ key = ['n', 'o', 'w', '(', ')'] then some (.time now) else none
+    call := some (fun name args => if name = ['n', 'o', 'w'] ∧ args.length = 0 then some (.time now) else none)
     zone := zone }
 
 /-- `MultiValuer(a, b)`: the first valuer that answers wins (always a `CallValuer` and a `ZoneValuer`). -/
